@@ -516,3 +516,19 @@ Fixpoint sp_run (st : sfile * bytes) (ops : list fop) : (sfile * bytes) * list f
   | [] => (st, [])
   | op :: r => let (st', x) := sp_step st op in let (st'', xs) := sp_run st' r in (st'', x :: xs)
   end.
+
+(* ------------------------------------------------------------------------------------------ *)
+(* SFTPClient._copy (sftp.py, "Copy a file, directory, or symbolic link"): which attributes decide
+   the kind of copy and the total_bytes handed to _SFTPFileCopier.  srcattrs arrive from lstat
+   (directory listing, glob) or from stat; with follow_symlinks a symlink is re-stat'ed and BOTH the
+   type and the size are taken from the result.  Types are FILEXFER_TYPE_*: 1 regular, 2 directory,
+   3 symlink. *)
+Record fattrs := mkFattrs { a_type : Z; a_size : Z }.
+
+Definition copy_attrs (follow : bool) (lst st : fattrs) : fattrs :=
+  if follow && (a_type lst =? 3) then st else lst.
+
+(* None: no file copier is started (directory walk, or the symlink is recreated) *)
+Definition copy_total (follow : bool) (lst st : fattrs) : option Z :=
+  let a := copy_attrs follow lst st in
+  if (a_type a =? 2) || (a_type a =? 3) then None else Some (a_size a).
